@@ -16,7 +16,8 @@
 //!       The clock only moves in `t` and `hold` (1 s) ops, and by 1 ms per barrier sleep; scenarios keep the
 //!       total below 10 s so that the factory's 10 s ping timer never fires.
 //!         drain | stop | q                        DrainRequests | factory.stop() | queue depth/active/capacity
-//!         sd <disc> | sw <n>                      UpdateSettings(discard_settings | worker_count)
+//!         sd <disc> | sw <n> | sh                 UpdateSettings(discard_settings | worker_count | a new discard handler)
+//!         xs <w> | xr <w>                         stop worker w's newest actor from outside with its post_stop held back | let that post_stop return
 //! a line starting with `hash ` asks for hash_with_max values:  hash <n> <k> <k> ...
 //! stdout: one Coq-syntax term per line: list (per op) of event lists (chronological inside an op).
 use std::collections::{BTreeMap, HashMap, HashSet};
@@ -53,6 +54,12 @@ struct Shared {
     hold_armed: bool,
     held: bool,
     release_value: usize,
+    /// actors stopped from outside by `xs`: their post_stop waits for `xr`
+    xgated: HashSet<usize>,
+    /// aid -> gate of a post_stop that is being held back (present once the actor is inside post_stop)
+    pgates: BTreeMap<usize, Arc<Semaphore>>,
+    /// generations of discard handlers that are currently installed (or being replaced in this op)
+    valid_handlers: HashSet<usize>,
 }
 
 type Sh = Arc<Mutex<Shared>>;
@@ -98,6 +105,31 @@ impl Worker for HWorker {
         _factory: &ActorRef<FactoryMessage<u64, Payload>>,
         _args: (),
     ) -> Result<(), ActorProcessingErr> {
+        Ok(())
+    }
+
+    async fn post_stop(
+        &self,
+        _wid: WorkerId,
+        _factory: &ActorRef<FactoryMessage<u64, Payload>>,
+        _state: &mut (),
+    ) -> Result<(), ActorProcessingErr> {
+        // the exiting-worker window: status Stopping, ports closed, supervisor not yet told
+        let gate = {
+            let mut s = self.sh.lock().unwrap();
+            if s.xgated.contains(&self.aid) {
+                let g = Arc::new(Semaphore::new(0));
+                s.pgates.insert(self.aid, g.clone());
+                Some(g)
+            } else {
+                None
+            }
+        };
+        if let Some(g) = gate {
+            let p = g.acquire().await.expect("post_stop gate");
+            p.forget();
+            self.sh.lock().unwrap().pgates.remove(&self.aid);
+        }
         Ok(())
     }
 
@@ -157,9 +189,14 @@ impl WorkerBuilder<HWorker, ()> for Builder {
 
 // ---------------------------------------------------------------- user-code pieces
 
-struct Disc(Sh);
+/// A recording discard handler of generation `.1`. A call that reaches a handler which is no longer
+/// installed records nothing: the job then shows up as dropped (never given to the current handler).
+struct Disc(Sh, usize);
 impl DiscardHandler<u64, Payload> for Disc {
     fn discard(&self, reason: DiscardReason, job: &mut Job<u64, Payload>) {
+        if !self.0.lock().unwrap().valid_handlers.contains(&self.1) {
+            return;
+        }
         let r = match reason {
             DiscardReason::TtlExpired => "RTtl",
             DiscardReason::Loadshed => "RLoadshed",
@@ -266,13 +303,15 @@ where
     Q: Queue<u64, Payload>,
 {
     let ctl_gate = Arc::new(Semaphore::new(0));
+    sh.lock().unwrap().valid_handlers.insert(0);
+    let mut handler_gen = 0usize;
     let fdef = Factory::<u64, Payload, (), HWorker, R, Q>::default();
     let args = FactoryArguments::builder()
         .worker_builder(Box::new(Builder(sh.clone())))
         .num_initial_workers(cfg.n)
         .router(router)
         .queue(queue)
-        .discard_handler(Arc::new(Disc(sh.clone())))
+        .discard_handler(Arc::new(Disc(sh.clone(), 0)))
         .discard_settings(parse_disc(&cfg.disc))
         .capacity_controller(Box::new(Ctl(sh.clone(), ctl_gate.clone())))
         .build();
@@ -403,6 +442,58 @@ where
                     UpdateSettingsRequest::builder().worker_count(num(1)).build(),
                 ));
             }
+            "xs" => {
+                // graceful stop from outside of the newest live actor of worker w; its post_stop is held back
+                let wid = num(1);
+                let target = {
+                    let s = sh.lock().unwrap();
+                    cells
+                        .iter()
+                        .filter(|(aid, c)| {
+                            s.builds[**aid] == wid
+                                && matches!(
+                                    c.get_status(),
+                                    ractor::ActorStatus::Running
+                                        | ractor::ActorStatus::Starting
+                                        | ractor::ActorStatus::Upgrading
+                                        | ractor::ActorStatus::Draining
+                                )
+                        })
+                        .map(|(aid, _)| *aid)
+                        .max()
+                };
+                if let Some(aid) = target {
+                    sh.lock().unwrap().xgated.insert(aid);
+                    cells[&aid].stop(None);
+                }
+            }
+            "xr" => {
+                // the oldest actor of worker w that sits in its held-back post_stop may finish
+                let wid = num(1);
+                let g = {
+                    let s = sh.lock().unwrap();
+                    s.pgates.iter().find(|(aid, _)| s.builds[**aid] == wid).map(|(_, g)| g.clone())
+                };
+                if let Some(g) = g {
+                    g.add_permits(1);
+                }
+            }
+            "sh" => {
+                // UpdateSettings(discard_handler = a NEW recording handler)
+                handler_gen += 1;
+                sh.lock().unwrap().valid_handlers.insert(handler_gen);
+                let h: Arc<dyn DiscardHandler<u64, Payload>> = Arc::new(Disc(sh.clone(), handler_gen));
+                if factory
+                    .cast(FactoryMessage::UpdateSettings(
+                        UpdateSettingsRequest::builder().discard_handler(Some(h)).build(),
+                    ))
+                    .is_err()
+                {
+                    // factory gone: nothing was installed
+                    sh.lock().unwrap().valid_handlers.remove(&handler_gen);
+                    handler_gen -= 1;
+                }
+            }
             "q" => {}
             other => panic!("unknown op {other}"),
         }
@@ -434,6 +525,14 @@ where
         // every handled message, but not after supervision events) has run at every op boundary
         let _ = factory.cast(FactoryMessage::WorkerPong(usize::MAX, Duration::ZERO));
         barrier().await;
+        if w[0] == "sh" {
+            // the scenario never sends `sh` while the factory is held, so the update has been applied
+            let mut s = sh.lock().unwrap();
+            if !s.held {
+                let keep = handler_gen;
+                s.valid_handlers.retain(|g| *g == keep);
+            }
+        }
         learn(&mut cells, &mut known);
         // acceptance replies that have arrived
         let mut still = Vec::new();
